@@ -76,8 +76,9 @@ with all_prefix_f (bs : list nat) (f : forest) : bool :=
   end.
 
 (* coherence (C01): entries extend the node's batch size, nested nodes extend their parent's; the device of a nested
-   node is its parent's when the parent has one *)
-Fixpoint coherent_t (t : tree) : bool := match t with Node m f => coherent_f (m_bs m) (m_dev m) f end
+   node is its parent's when the parent has one; the only device is cpu = 0 *)
+Fixpoint coherent_t (t : tree) : bool :=
+  match t with Node m f => (match m_dev m with Some d => d =? 0 | None => true end) && coherent_f (m_bs m) (m_dev m) f end
 with coherent_f (bs : list nat) (dv : option nat) (f : forest) : bool :=
   match f with
   | FNil => true
